@@ -241,11 +241,23 @@ Lemma old_setitem_grown_wrong_position :
   setitem_grown (-1) 1 [2] [3] = Some [3; 1] /\ setitem_then_infer (-1) 1 [2] [3] = Some [1; 2].
 Proof. split; vm_compute; reflexivity. Qed.
 
-(* q = copy.copy(p); q.f = [1]: the element is in the field written through q but is recorded for p, to whom the shared container is
-   still bound (known finding C16-j); written through q.f.append it is recorded for q *)
-Theorem refuted_clone_assign :
-  let s := cstep (CAssign WQ [1]) (clone_init [0]) in In 1 (sitems s) /\ ~ In 1 (recs s WQ) /\ In 1 (recs s WP).
-Proof. simpl. split; [now left|]. split; [intros [] | right; now left]. Qed.
+(* regression (before e598545): q = copy.copy(p); q.f = [1]: the element was recorded for p, to whom the shared container was still
+   bound; now it is recorded for q *)
+Lemma old_clone_assign_recorded_for_original :
+  (let s := cstep_old (CAssign WQ [1]) (clone_init [0]) in In 1 (sitems s) /\ ~ In 1 (recs s WQ) /\ In 1 (recs s WP))
+  /\ (let s := cstep (CAssign WQ [1]) (clone_init [0]) in In 1 (recs s WQ)).
+Proof. simpl. split; [split; [now left | split; [intros [] | right; now left]] | now left]. Qed.
 
-Lemma clone_append_recorded w x s : In x (recs (cstep (CAppend w x) s) w).
-Proof. destruct w; simpl; apply in_or_app; right; now left. Qed.
+(* every write through an owner of the shared container is recorded for that owner *)
+Lemma clone_write_recorded o s : match o with
+  | CRead _ => True
+  | CAppend w x => In x (recs (cstep o s) w)
+  | CAssign w vs => incl vs (recs (cstep o s) w)
+  end.
+Proof.
+  destruct o as [w | w x | w vs]; [exact I | |]; destruct w; simpl.
+  - apply in_or_app. right. now left.
+  - apply in_or_app. right. now left.
+  - apply incl_appr, incl_refl.
+  - apply incl_appr, incl_refl.
+Qed.
